@@ -133,7 +133,7 @@ func cmdCheck(args []string) int {
 	missing := 0
 	for _, k := range keys {
 		c := db.Contracts[k]
-		if *only != "" && !strings.Contains(k, *only) {
+		if *only != "" && !matchOnly(k, *only) {
 			continue
 		}
 		fn := L.findFunction(c.Pkg, c.Key)
@@ -331,10 +331,10 @@ func cmdCheck(args []string) int {
 				break
 			}
 		}
-		replayed := false
-		if hasModel {
-			replayed = tryReplay(*verif, *repo, *prop, n, g.bad, &sb)
-		}
+		// a registered replay scenario is run even when the solver gave no model (quantified
+		// obligations return unknown): the scenario is built from the failed clause itself
+		replayed := tryReplay(*verif, *repo, *prop, n, g.bad, &sb)
+		_ = hasModel
 		if !replayed {
 			suffix = " no-failing-input-found"
 		}
@@ -506,15 +506,12 @@ func tryReplay(verif, repo, prop, name string, bad []*Obligation, sb *strings.Bu
 	if ent == nil {
 		return false
 	}
-	var ob *Obligation
+	ob := &Obligation{CEValues: map[string]string{}}
 	for _, b := range bad {
 		if b.CEValues != nil {
 			ob = b
 			break
 		}
-	}
-	if ob == nil {
-		return false
 	}
 	tmp, err := os.MkdirTemp("", "gverif-replay")
 	if err != nil {
@@ -538,4 +535,12 @@ func tryReplay(verif, repo, prop, name string, bad []*Obligation, sb *strings.Bu
 	}
 	fmt.Fprintf(sb, "\n--- replay on the real code (%s, %s) ---\ncounterexample values: %s\n%s\n", ent.File, ent.Run, string(ce), text)
 	return strings.Contains(text, "REPRODUCED:")
+}
+
+// matchOnly: substring match; a trailing '$' anchors at the end of the key.
+func matchOnly(key, pat string) bool {
+	if strings.HasSuffix(pat, "$") {
+		return strings.HasSuffix(key, strings.TrimSuffix(pat, "$"))
+	}
+	return strings.Contains(key, pat)
 }
